@@ -101,7 +101,7 @@ def instruction(rng, labels):
     return case(rng, rng.choice(REG1)) + blank(rng) + rng.choice(REGS)
 
 
-COMMENTS = ["", ";", "; comment", ";;; x ;;", " ; trailing  ", ";\t", "; with ; inside", "; ünïcödé €", ";#! mrasm", "; (R0+), 0x12"]
+COMMENTS = ["", ";", "; comment", ";;; x ;;", "; ; x", "; x ; ;", ";;x;; ;", "; ;", " ;\t; y ;\t;", ";a;", " ; trailing  ", ";\t", "; with ; inside", "; ünïcödé €", ";#! mrasm", "; (R0+), 0x12"]
 
 
 def program(rng, nlines=None, ndefs=None):
@@ -195,6 +195,36 @@ def token_mutations(rng):
     out.append("#! mrasm\nAbc:\nJMP ABC\nJMP abc\nLD R0, aBC\n")
     out.append("#! mrasm\nAbc:\nabc:\n")
     out.append("#! mrasm\nJMP abd\nabc:\n")
+    return out
+
+
+def edge_texts():
+    """deterministic corner programs shared by the parser / translator / formatter checks"""
+    out = []
+    # references that are a prefix / an extension / a case variant of a defined name
+    for d, r in [("lo", "loop"), ("loop", "lo"), ("a", "ab"), ("ab", "a"), ("Loop", "LOOPS"), ("loops", "LOOP"), ("x_1", "x_"), ("x_", "x_1"), ("e", "E"), ("lo", "LO")]:
+        for use in ["JMP %s", "JR %s", "LD R0, %s", "MOV (%s), R1", "CALL %s", "DEC %s", "LDSP (%s)"]:
+            out.append("#! mrasm\n%s:\n%s\n" % (d, use % r))
+        out.append("#! mrasm\n.EQU %s 5\nLD R1, %s\n" % (d, r))
+    # relative jumps over every distance around the signed-byte limits, forward and backward, and across the 256 wrap
+    for dist in [0, 1, 2, 100, 124, 125, 126, 127, 128, 129, 130, 200, 250, 253]:
+        for j in ["JR", "JZS", "JCC", "JNS"]:
+            out.append("#! mrasm\n%s far\n.BYTE %d\nfar:\nSTOP\n" % (j, dist))
+            out.append("#! mrasm\nback:\n.BYTE %d\n%s back ; comment\n" % (dist, j))
+    out.append("#! mrasm\n.ORG 250\nJR lbl\n.ORG 3\nlbl:\n")
+    # long labels / long operands with and without comments (comment column)
+    for n in [1, 20, 28, 29, 30, 31, 32, 33, 39, 40, 41, 60, 120]:
+        lab = ("L" + "abcdefghi_" * 13)[:n]
+        out.append("#! mrasm\n%s: ; c\n%s:\n" % (lab, lab + "x"))
+        out.append("#! mrasm\n%s:;c\n JMP %s ; comment ; with ; semicolons ;\n MOV ((%s)), ((%s));x\n" % (lab, lab, lab, lab))
+    # comments made of semicolons and blanks in every arrangement up to length 5, on every kind of line
+    import itertools
+    for n in range(1, 6):
+        for combo in itertools.product("; \tx", repeat=n):
+            c = "".join(combo)
+            if n >= 4 and "x" not in c:
+                continue
+            out.append("#! mrasm ;%s\nl: ;%s\n NOP ;%s\n;%s\n" % (c, c, c, c))
     return out
 
 
